@@ -210,7 +210,9 @@ func (x *executor) invoke(m *machine, fr *frame, in ssa.Instruction, res ssa.Val
 	}
 	rt := sig.Recv().Type()
 	key := ""
-	if n, ok := rt.(*types.Named); ok {
+	if k0 := x.ifaceMethodKey(recv.typ, method); x.specs.funcs[k0] != nil {
+		key = k0
+	} else if n, ok := rt.(*types.Named); ok {
 		pn := n.Obj().Pkg().Name()
 		if !strings.HasPrefix(n.Obj().Pkg().Path(), repoModule) {
 			pn = n.Obj().Pkg().Path()
@@ -291,6 +293,10 @@ func (x *executor) applyContract(m *machine, fr *frame, in ssa.Instruction, res 
 			continue
 		}
 		mt := x.modTargetOf(ev, cl.e)
+		if mt.iface != "" {
+			x.refreshToken(st, mt.iface)
+			continue
+		}
 		// the caller must itself be allowed to modify it
 		x.checkFrameRef(m, fr, in, mt.heap, mt.sort, mt.ref)
 		x.havocTarget(st, mt)
@@ -339,9 +345,22 @@ func (x *executor) applyContract(m *machine, fr *frame, in ssa.Instruction, res 
 	if len(rs) == 1 {
 		ev2.vars["result"] = rs[0]
 	}
+	for _, cl := range fc.freshExprs {
+		ev2.where = cl.line
+		v := ev2.eval(cl.e)
+		if _, ok := v.typ.Underlying().(*types.Slice); !ok {
+			ev2.fail("fresh target must be a slice")
+		}
+		st.assume(mkEq(c.slRef(v.t), c.freshRef(st)))
+	}
 	for _, cl := range fc.ensures {
 		ev2.where = cl.line
 		st.assume(ev2.evalBool(cl.e))
+	}
+	for _, cl := range fc.assumed {
+		ev2.where = cl.line
+		st.assume(ev2.evalBool(cl.e))
+		x.note("assumed (not checked on the body) postcondition of " + key + ": " + cl.text)
 	}
 	if fc.trusted {
 		x.externs[key] = true
